@@ -661,9 +661,27 @@ def rule_file5(prog, rep, tier, anchor="emit.file"):
                             unconditional = not gs
                             if unconditional or (gnames & read_names) or any(_guard_reads_path(prog, t, it.context_expr) for t, p in gs):
                                 good = True
+        late = None
         if good:
+            # FILE-5b: the prefix must be applied to the final text: no later re-assignment of the written name (e.g. a
+            # formatter that strips leading blank lines) between the prefixing assignment and the write
+            for wx in written:
+                if isinstance(wx, ast.Name):
+                    assigns = sorted((s2 for s2 in ast.walk(fi.node) if isinstance(s2, ast.Assign) and any(isinstance(t, ast.Name) and t.id == wx.id for t in s2.targets) and s2.lineno < w.lineno),
+                                     key=lambda s2: s2.lineno)
+                    pref = [s2 for s2 in assigns if _starts_with_newline(s2.value) and wx.id in names_in(s2.value)]
+                    if pref:
+                        after = [s2 for s2 in assigns if s2.lineno > pref[-1].lineno and not (_starts_with_newline(s2.value) and wx.id in names_in(s2.value))]
+                        if after:
+                            late = after[0]
+        if good and late is not None:
+            ok_all = False
+            rep.violation(Finding("FILE-5", anchor, "prefix-before-transform",
+                                  "the separating newline is prefixed before the text is transformed again (%s): a formatter that drops leading blank lines removes it and the "
+                                  "appended definition is glued to the last line" % src(late, 70), loc(prog, late)))
+        elif good:
             rep.holds("FILE-5", "%s: appended text is separated from the existing last line" % anchor, loc(prog, w),
-                      "the written value is prefixed with a newline under a test on the existing content (or unconditionally)")
+                      "the written value is prefixed with a newline under a test on the existing content (or unconditionally), after every other transformation")
         else:
             ok_all = False
             rep.violation(Finding(
@@ -921,3 +939,156 @@ def rule_file2c(prog, rep, tier, anchor="conformance._conform_filename"):
                 % (anchor, desc), loc(prog, ret) if ret is not None else anchor))
     if n == 0:
         raise AnalysisError("FILE-2c: no unwritten returning path in %s" % anchor)
+
+
+# ---------------------------------------------------------------------------- path normal forms (FILE-1b, FILE-6b)
+PATH_FUNCS = {"os.path.realpath": "realpath", "os.path.abspath": "abspath", "os.path.expanduser": "expanduser", "os.path.normpath": "normpath",
+              "os.path.normcase": "normcase", "os.path.expandvars": "expandvars"}
+
+
+def _closure(nf):
+    nf = set(nf)
+    if "realpath" in nf:
+        nf |= {"abspath", "normpath"}
+    if "abspath" in nf:
+        nf |= {"normpath"}
+    return nf
+
+
+def path_nf(prog, e, fi, depth=0, follow_callers=True):
+    """set of os.path canonicalisation functions applied to reach the value of expression e in function fi"""
+    if depth > 6 or e is None:
+        return set()
+    if isinstance(e, ast.Call):
+        en = prog.ext_name(e.func, e) if isinstance(e.func, (ast.Name, ast.Attribute)) else None
+        if en in PATH_FUNCS and e.args:
+            return {PATH_FUNCS[en]} | path_nf(prog, e.args[0], fi, depth + 1, follow_callers)
+        for t in prog.resolve_expr_fn(e.func, e):
+            if isinstance(t, FunctionInfo) and e.args:
+                rets = [r.value for r in ast.walk(t.node) if isinstance(r, ast.Return) and enclosing_fn(r) is t and r.value is not None]
+                out = set()
+                for r in rets:
+                    out |= path_nf(prog, r, t, depth + 1, follow_callers=False)
+                return out | path_nf(prog, e.args[0], fi, depth + 1, follow_callers)
+        return set()
+    if isinstance(e, ast.Name) and fi is not None:
+        defs = [st.value for st in ast.walk(fi.node) if isinstance(st, ast.Assign) and any(isinstance(t, ast.Name) and t.id == e.id for t in st.targets) and st.lineno <= getattr(e, "lineno", 10 ** 9)]
+        out = set()
+        for d in defs:
+            # a rebinding `x = f(x)` contributes f and keeps following the previous value of x
+            out |= path_nf(prog, d, fi, depth + 1, follow_callers) if not (isinstance(d, ast.Name) and d.id == e.id) else set()
+        if e.id in fi.params() and follow_callers:
+            for caller, call in prog.callers_of(fi):
+                amap = call_arg_map(call, fi)
+                if e.id in amap and caller is not None:
+                    out |= path_nf(prog, amap[e.id], caller, depth + 1, follow_callers=False)
+        return out
+    if isinstance(e, ast.IfExp):
+        return path_nf(prog, e.body, fi, depth + 1, follow_callers) | path_nf(prog, e.orelse, fi, depth + 1, follow_callers)
+    return set()
+
+
+def rule_file1b(prog, rep, tier, entry="conformance.ground_truth", truth_param="truth_file"):
+    """FILE-1b: both sides of the "is this the truth file" comparison are canonicalised by the same path functions
+    (counting what the caller already applied to the truth path): otherwise a symlinked / relative spelling of the truth
+    file compares unequal to itself and the truth is rewritten."""
+    fi = prog.fn(entry)
+    n = 0
+    for f in prog.region(fi):
+        truth_names = derived(f.node, {truth_param}) if truth_param in f.params() or f is fi else set()
+        if not truth_names:
+            continue
+        for c in ast.walk(f.node):
+            if not (isinstance(c, ast.Compare) and len(c.ops) == 1 and isinstance(c.ops[0], (ast.Eq, ast.NotEq))):
+                continue
+            l, r = c.left, c.comparators[0]
+            lt, rt = bool(names_in(l) & truth_names), bool(names_in(r) & truth_names)
+            if lt == rt:
+                continue
+            tside, fside = (l, r) if lt else (r, l)
+            if not (isinstance(tside, (ast.Call, ast.Name)) and isinstance(fside, (ast.Call, ast.Name))):
+                continue
+            n += 1
+            owner = enclosing_fn(c) or f
+            nf_t = _closure(path_nf(prog, tside, owner))
+            nf_f = _closure(path_nf(prog, fside, owner))
+            if nf_t == nf_f:
+                rep.holds("FILE-1b", "truth comparison %s: both sides canonicalised by %s" % (src(c, 70), sorted(nf_f)), loc(prog, c), "")
+            else:
+                rep.violation(Finding("FILE-1b", entry, "truth-compare-canonicalisation",
+                                      "the truth side of %s is canonicalised by %s, the target side by %s: a symlinked or differently spelled path of the truth file "
+                                      "compares unequal to itself, so the truth file is rewritten" % (src(c, 70), sorted(nf_t), sorted(nf_f)), loc(prog, c)))
+    if n == 0:
+        rep.ob("FILE-1b", "truth comparison", "unresolved", loc(prog, fi.node), "no equality comparison between the truth path and a target path found (guard by another idiom)")
+
+
+def rule_file6b(prog, rep, tier, anchor="gen.gen", main="__main__.main", param="output_filename"):
+    """FILE-6b: the path the existing-output guard tests is the path that is opened for writing: the worker applies no
+    further canonicalisation to it (or the guard applies the same)."""
+    fi = prog.fn(anchor)
+    mi = prog.fn(main)
+    guard_nf = set()
+    for c in ast.walk(mi.node):
+        if isinstance(c, ast.Call) and isinstance(c.func, (ast.Attribute, ast.Name)) and prog.ext_name(c.func, c) in ("os.path.isfile", "os.path.exists") and c.args \
+                and any(isinstance(x, ast.Attribute) and x.attr == param for x in ast.walk(c.args[0])):
+            st = c
+            while not isinstance(st, ast.stmt):
+                st = st._parent
+            # only the guard of this worker: the enclosing branch calls it
+            blk = st
+            while blk is not None and not (isinstance(blk, ast.If) and any(isinstance(x, ast.Call) and prog.is_fn(x.func, anchor, x) for x in ast.walk(blk))):
+                blk = getattr(blk, "_parent", None)
+            if blk is not None:
+                guard_nf |= path_nf(prog, c.args[0], mi)
+    n = 0
+    for c in ast.walk(fi.node):
+        if isinstance(c, ast.Call) and is_open(prog, c) and open_mode(prog, c)[0] != "read":
+            p = c.args[0] if c.args else None
+            if p is None or param not in names_in(p):
+                continue
+            n += 1
+            sink_nf = path_nf(prog, p, fi, follow_callers=False)
+            if _closure(sink_nf) == _closure(guard_nf):
+                rep.holds("FILE-6b", "%s opens %s as tested by the guard (canonicalisation %s)" % (anchor, src(p, 40), sorted(sink_nf) or "none"), loc(prog, c), "")
+            else:
+                rep.violation(Finding("FILE-6b", anchor, "guard-sink-path-mismatch",
+                                      "%s opens %s after applying %s, but the existing-file guard in main tests the path with %s: for `~` or symlinked spellings the guard "
+                                      "looks at a different file than the one written" % (anchor, src(p, 40), sorted(sink_nf) or "nothing", sorted(guard_nf) or "nothing"), loc(prog, c)))
+    if n == 0:
+        raise AnalysisError("FILE-6b: %s no longer opens %s for writing" % (anchor, param))
+
+
+def rule_file6c(prog, rep, tier, anchor="__main__.main"):
+    """FILE-6c: a usage error is raised only before any worker has started: no ArgumentParser.error in an exception
+    handler around (or in a statement after) a worker call."""
+    fi = prog.fn(anchor)
+    workers = ("conformance.ground_truth", "sync_properties.sync_properties", "gen.gen")
+
+    def has_worker(nodes):
+        return any(isinstance(x, ast.Call) and any(prog.is_fn(x.func, w, x) for w in workers) for nd in nodes for x in ast.walk(nd))
+
+    n = 0
+    for c in ast.walk(fi.node):
+        if isinstance(c, ast.Call) and _is_parser_error(c):
+            n += 1
+            bad = None
+            p, child = c._parent, c
+            while p is not None and p is not fi.node:
+                if isinstance(p, ast.ExceptHandler):
+                    t = p._parent
+                    if isinstance(t, ast.Try) and has_worker(t.body):
+                        bad = "in an exception handler around a worker call"
+                for fld in ("body", "orelse", "finalbody"):
+                    blk = getattr(p, fld, None)
+                    if isinstance(blk, list) and any(child is s2 for s2 in blk):
+                        idx = next(i for i, s2 in enumerate(blk) if s2 is child)
+                        if has_worker(blk[:idx]):
+                            bad = "after a worker call in the same block"
+                child, p = p, p._parent
+            if bad:
+                rep.violation(Finding("FILE-6c", anchor, "usage-error-after-work",
+                                      "%s is reachable %s: the invocation is rejected with a usage error after files may already have been written" % (src(c, 60), bad), loc(prog, c)))
+            else:
+                rep.holds("FILE-6c", "usage error %s precedes all work" % src(c, 50), loc(prog, c), "")
+    if n == 0:
+        raise AnalysisError("FILE-6c: main() raises no usage error at all")
